@@ -306,6 +306,11 @@ func execR(c caseR) (overlap bool, err error) {
 			}
 		}
 	}
+	// A bucket whose deletion was acknowledged exists again only through an acknowledged CreateBucket - whichever
+	// request of the race brought it back (an initiation, a read, an upload that failed in the end).
+	if exists && delAck && !recreated && !(kf.Open(zombieFinding) && !strictR) {
+		return overlap, fmt.Errorf("DeleteBucket was acknowledged (op%d) and no CreateBucket was, yet the bucket exists after the race: a request of the race re-created its directory%s", delIdx, hist.String())
+	}
 	// DeleteBucket succeeds only on a bucket without objects: if it was acknowledged while an object that was
 	// acknowledged strictly before it started still existed, the check above has reported the loss already.
 	_ = hasPrepared
